@@ -3,7 +3,7 @@
    Property theorems only. *)
 From Coq Require Import List Bool Arith.
 Import ListNotations.
-Require Import PonyV.Model.C22Memo PonyV.Model.C22Sched PonyV.Proofs.C22Proofs.
+Require Import PonyV.Model.C22Memo PonyV.Model.C22Sched PonyV.Model.C22Key PonyV.Proofs.C22Proofs.
 
 (* Set-only caches (get; on a miss compute and set): if equal keys imply equal computed values, then under EVERY
    schedule (list of client ids, any number of clients, any correct initial cache content) every client that has
@@ -33,6 +33,20 @@ Theorem C22_translator_own_data : forall safe warm xs sched t,
   t_pc (t_thr s t) = 3 -> t_res (t_thr s t) = TGot (xs t) \/ (safe = false /\ t_res (t_thr s t) = TKeyError).
 Proof. exact translator_own_data. Qed.
 Print Assumptions C22_translator_own_data.
+
+(* Key soundness of the translator cache as coded: key = (code_key, vartypes, left_join, filters), plus the comparison of the
+   recorded fixed_param_values at every lookup.  If the translation reads nothing but those key components and the values of
+   the parameters it fixes (read-set hypothesis, the subject of C05), then an entry created by ANY query and accepted by the
+   lookup for query i is the translation of i: a thread is never served a translation that differs from its own. *)
+Theorem C22_translator_key_sound :
+  forall (Code VT Filt Val Tr : Type) (veqb : Val -> Val -> bool), (forall x y, veqb x y = true -> x = y) ->
+  forall (translate : qinput Code VT Filt Val -> Tr) (fixed_of : Code * VT * bool * Filt -> list nat),
+  (forall i j, qkey _ _ _ _ i = qkey _ _ _ _ j ->
+     (forall p, In p (fixed_of (qkey _ _ _ _ i)) -> q_vals _ _ _ _ i p = q_vals _ _ _ _ j p) -> translate i = translate j) ->
+  forall e i t, entry_ok Code VT Filt Val Tr translate fixed_of e (qkey _ _ _ _ i) ->
+  accept Code VT Filt Val Tr veqb e i = Some t -> t = translate i.
+Proof. exact key_sound. Qed.
+Print Assumptions C22_translator_key_sound.
 
 (* Cross-thread use of an object of another thread's live session: every operation outside the recorded unguarded
    cases is rejected (TransactionError). *)
